@@ -1,5 +1,7 @@
 import CijModel.Wire
 import CijModel.FullModulus
+import CijModel.FullModulusGlue
+import Generated.FullModulusGlue
 open Lean Cij Cij.Wire Cij.LeastSq Cij.FullModulus
 
 namespace Cij.Ops.C05
@@ -54,8 +56,73 @@ def optJson {β} (f : β → Json) : Option β → Json
   | some x => f x
   | none => Json.str "error"
 
+/-! #### the translated source, interpreted (`CijModel/FullModulusGlue.lean` on `Generated/FullModulusGlue.lean`)
+
+`calculate_eulerian_strain` is not rational: the interpreter's strain function is the finite table (reference volume, volume) ↦ strain
+of exactly the values qha returned on this case (the static table's volumes and the grid against the table's first row; the phonon
+file's volumes and the grid against that file's first volume). -/
+
+def tableOfJson (j : Json) : Except String (List (String × List Rat)) := do
+  match (← field j "table") with
+  | .obj kv => kv.toList.mapM fun (k, v) => do pure (k, ← rats1 v)
+  | _ => .error "table: expected object"
+
+def srcCtx (j : Json) : Except String (FMGlue.Ctx Rat) := do
+  let vols ← rats1 (← field j "volumes")
+  let vArr ← rats1 (← field j "v_array")
+  let strains ← rats1 (← field j "strains")
+  let sArr ← rats1 (← field j "strain_array")
+  let table ← tableOfJson j
+  let lattice ← rats2 (← field j "lattice")
+  let gpa ← ratOfJson (← field j "gpa_factor")
+  let qv ← rats1 (← field j "qha_volumes")
+  let qe ← rats1 (← field j "energies")
+  let es ← rats1 (← field j "e_strains")
+  let esa ← rats1 (← field j "e_strain_array")
+  let v0 := vols.headD 0
+  let q0 := qv.headD 0
+  let tbl : List ((Rat × Rat) × Rat) :=
+    (vols.zip strains).map (fun e => ((v0, e.1), e.2)) ++ (vArr.zip sArr).map (fun e => ((v0, e.1), e.2)) ++
+    (qv.zip es).map (fun e => ((q0, e.1), e.2)) ++ (vArr.zip esa).map (fun e => ((q0, e.1), e.2))
+  let rows : List (ElastDat.ElastVolume Rat) :=
+    (List.range vols.length).map fun i => ⟨vols.getD i 0, table.map fun kc => (ElastDat.Key.raw kc.1, kc.2.getD i 0)⟩
+  pure { strain := fun a b => ((tbl.find? fun e => e.1 == (a, b)).map (·.2)).getD 0,
+         gpa := gpa,
+         calculator := { vArray := vArr, modulusKeys := table.map fun kc => ElastDat.Key.raw kc.1,
+                         elastData := { vref := 0, nv := vols.length, cellmass := 0, volumes := rows, lattice := lattice },
+                         qhaVolumes := qv.zip qe,
+                         cfgLeaf := fun _ => none,
+                         cfgSection := fun p => p == ["elast"] || p == ["elast", "settings"] },
+         phA := fun _ _ => none, phI := fun _ _ => none }
+
+def srcAttrs : FMGlue.Env Rat := [("elast_data", .edata), ("calculator", .calcObj)]
+
+def jVal : Option (FMGlue.Val Rat) → Json
+  | some (.ar l) => jRats1 l
+  | some (.mat m) => jRats2 m
+  | _ => Json.str "error"
+
 def handle : Handler := fun op j =>
   match op with
+  | "c05.src" => some do
+      -- the translated `get_static_modulus` (every key), `get_axial_strains`, `_calculate_pressure_static`, and `fit_modulus`
+      -- with explicit orders, interpreted over Rat
+      let C ← srcCtx j
+      let table ← tableOfJson j
+      let cls := Generated.FullModulusGlue.cls
+      let fits ← match j.getObjVal? "fits" with
+        | .ok (.arr a) => a.toList.mapM fun f => do
+            let m ← rats1 (← field f "moduli")
+            let k ← natOfJson (← field f "order")
+            pure (jVal (FMGlue.callV cls C 4 srcAttrs "fit_modulus" [.ar m, .nat k]))
+        | _ => pure []
+      let sp := (FMGlue.runOnCalc C Generated.FullModulusGlue.pressureStatic []).bind fun r => FMGlue.lookup r.1 "static_p_array"
+      pure (Json.mkObj [
+        ("static", Json.mkObj (table.map fun kc =>
+          (kc.1, jVal (FMGlue.callV cls C 5 srcAttrs "get_static_modulus" [.key (ElastDat.Key.raw kc.1)])))),
+        ("axial", jVal (FMGlue.callV cls C 5 srcAttrs "get_axial_strains" [])),
+        ("static_p", jVal sp),
+        ("fits", Json.arr fits.toArray)])
   | "c05.static" => some do
       -- every key of the table: get_static_modulus(key) on the fine grid (exact over Rat, rounded once)
       let inp ← inputsOfJson j
